@@ -27,7 +27,11 @@
 EXTENDS Integers, Sequences, FiniteSets, TLC
 
 CONSTANTS StationLegacySkip,   \* bytes GenSharedKeys discards for libver < 4 (104)
-          StationRandMinVer    \* first libver for which the station randomises ports (3)
+          StationRandMinVer,   \* first libver for which the station randomises ports (3)
+          ClientPortSource     \* which of its two parameter sets ClientTransport.GetDstPort consults: "session" - the session's
+                               \* (what GetParams reports, i.e. what the registration message carries, and what a registrar
+                               \* override replaces via SetSessionParams); "dialer" - the ones given to SetParams, which an
+                               \* override never touches (a broken instance: must violate Agreement)
 
 LibVers == 0..4
 Transports == {"min", "obfs4", "prefix", "dtls"}
@@ -103,17 +107,18 @@ Const(p) == [kind |-> "const", port |-> p, lo |-> 0, hi |-> 0]
 Range(tr) == [kind |-> "range", port |-> 0, lo |-> PortMin(tr), hi |-> PortMax(tr)]
 Reject == [kind |-> "reject", port |-> 0, lo |-> 0, hi |-> 0]
 
-\* Transport.GetDstPort(libver, seed, params) of the station transports
-StationTransportPort(c) ==
+\* Transport.GetDstPort(libver, seed, params) of the station transports, for parameters that are present / randomise / name prefix pid
+StationRule(c, present, rand, pid) ==
   CASE c.tr \in {"min", "obfs4"} ->
          IF c.lv < StationRandMinVer THEN Const(443)
-         ELSE IF ~EffPresent(c) THEN Const(443)
-         ELSE IF EffRand(c) THEN Range(c.tr) ELSE Const(443)
+         ELSE IF ~present THEN Const(443)
+         ELSE IF rand THEN Range(c.tr) ELSE Const(443)
     [] c.tr = "prefix" ->
-         IF c.lv < StationRandMinVer \/ ~EffPresent(c) THEN Reject
-         ELSE IF EffRand(c) THEN Range(c.tr) ELSE Const(DefaultPort("prefix", EffPid(c)))
+         IF c.lv < StationRandMinVer \/ ~present THEN Reject
+         ELSE IF rand THEN Range(c.tr) ELSE Const(DefaultPort("prefix", pid))
     [] c.tr = "dtls" ->   \* absent parameters parse to an empty DTLSTransportParams
-         IF EffPresent(c) /\ EffRand(c) THEN Range(c.tr) ELSE Const(443)
+         IF present /\ rand THEN Range(c.tr) ELSE Const(443)
+StationTransportPort(c) == StationRule(c, EffPresent(c), EffRand(c), EffPid(c))
 \* getPhantomDstPort: the 443 gate comes first.  A registrar override carries the port the registrar computed
 \* with the same rule (regprocessor.processBdReq), "port" carries an arbitrary registrar-chosen port.
 StationDerivedPort(c) == IF c.lv < StationRandMinVer \/ ~c.sr THEN Const(443) ELSE StationTransportPort(c)
@@ -125,6 +130,30 @@ ClientTransportPort(c) ==
     [] c.tr = "prefix" -> IF EffRand(c) THEN Range(c.tr) ELSE Const(DefaultPort("prefix", EffPid(c)))
 ClientDerivedPort(c) == IF c.lv < ClientRandMinVer THEN Const(443)
                         ELSE IF c.sr THEN ClientTransportPort(c) ELSE Const(443)
+\* The client's OWN derivation in the state its session is in - after SetParams, Prepare and (for a "params" override)
+\* SetSessionParams: GetDstPort must speak of the same parameters as GetParams does (= what a registration message
+\* built from this session names), whatever happened to the session.
+\* Adopts: the min, obfs4 and prefix client transports take a registrar override into their session; the DTLS client
+\* transport does not (its ParseParams is a stub returning nil, so SetSessionParams changes nothing - the registrar of
+\* this repository never overrides DTLS parameters, and the port to dial comes with the response anyway).
+Adopts(c) == c.tr # "dtls"
+SessRand(c) == IF c.ov = "params" /\ Adopts(c) THEN EffRand(c) ELSE c.pc = "rand"
+SessPid(c) == IF c.ov = "params" /\ Adopts(c) THEN EffPid(c) ELSE c.pid
+SessPresent(c) == (c.ov = "params" /\ Adopts(c)) \/ c.pc # "absent"
+OwnRand(c) == IF ClientPortSource = "session" THEN SessRand(c) ELSE c.pc = "rand"
+OwnPresent(c) == IF ClientPortSource = "session" THEN SessPresent(c) ELSE c.pc # "absent"
+ClientOwnTransportPort(c) ==
+  CASE c.tr \in {"min", "obfs4", "dtls"} -> IF OwnPresent(c) /\ OwnRand(c) THEN Range(c.tr) ELSE Const(443)
+    [] c.tr = "prefix" -> IF OwnRand(c) THEN Range(c.tr)
+                          \* a registrar may name a prefix the client has never heard of: the override installs a prefix
+                          \* object WITHOUT a port of its own (0) - the port to dial then comes with the response
+                          ELSE IF c.ov = "params" THEN Const(0)
+                          ELSE Const(DefaultPort("prefix", SessPid(c)))
+ClientOwnPort(c) == IF c.lv < ClientRandMinVer THEN Const(443)
+                    ELSE IF c.sr THEN ClientOwnTransportPort(c) ELSE Const(443)
+\* what the station derives from a message naming the session's parameters
+StationFromSession(c) == IF c.lv < StationRandMinVer \/ ~c.sr THEN Const(443)
+                         ELSE StationRule(c, SessPresent(c), SessRand(c), SessPid(c))
 \* a registration response that overrides the parameters also carries the port the registrar derived from them
 \* (regprocessor.processBdReq uses the station transports' rule); the client dials that port
 ClientDialRule(c) == IF c.ov = "params" THEN StationDerivedPort(c) ELSE ClientDerivedPort(c)
@@ -146,6 +175,9 @@ Norm(s) == {IF s[k].op = "read" THEN [s[k] EXCEPT !.op = "bytes", !.lo = Offs(s,
 DrawsAgree(c) == Norm(ClientDraws(c)) = Norm(StationDraws(c))
 PortAgree(c) == ClientPort(c) = StationPort(c)
 Accepts(c) == StationDerivedPort(c).kind # "reject"
+\* what the client derives by itself from its session equals what the station derives from the message naming those parameters
+OwnPortAgree(c) == \/ ClientOwnPort(c) = StationFromSession(c)
+                   \/ (c.ov = "params" /\ ~SessRand(c) /\ ClientOwnPort(c) = Const(0))   \* "none of my own: dial the response's"
 
 \* ---- TLC: one state per tuple ----------------------------------------------------------------
 VARIABLE t
@@ -153,7 +185,7 @@ Init == t \in {c \in Tuples : WellTyped(c)}
 Next == UNCHANGED t
 Spec == Init /\ [][Next]_t
 
-Agreement == Applicable(t) => (DrawsAgree(t) /\ PortAgree(t) /\ Accepts(t))
+Agreement == Applicable(t) => (DrawsAgree(t) /\ PortAgree(t) /\ Accepts(t) /\ OwnPortAgree(t))
 \* secondary: whatever the station accepts from an old client is dialled on 443, and a randomised
 \* port is only ever derived when the subnet allows it
 OldClients443 == (t.lv < 3 /\ Accepts(t) /\ t.ov # "port") => StationPort(t) = Const(443)
